@@ -105,6 +105,9 @@ class Stats:
                 "budget_hit": self.budget_hit, "violations": self.violations, "extra": self.extra}
 
 
+MAX_CONFIRMED = 25     # confirmed, unlisted violations replayed and written as replay files per run
+
+
 def merge_stats(parts):
     s = Stats()
     for p in parts:
@@ -342,19 +345,29 @@ def _run_check(mod, tier, seed, only_replay=None):
         if v.get("kind") == "harness" or v.get("case") is None:
             harness_errors.append(v)
             continue
+        if len(unlisted) >= MAX_CONFIRMED:
+            # a tree that breaks the property everywhere: enough confirmed reproductions are on record; replaying hundreds
+            # more (each up to the cpu limit) only delays the verdict
+            stats.extra.setdefault("violations_not_replayed", 0)
+            stats.extra["violations_not_replayed"] += 1
+            continue
         reps = 0
+        tries = 0
         last = None
+        need = 3 if v.get("kind") == "hang" else 1
         for _ in range(3):
             _runner_mod().new_case()
             r = mod.check(v["case"])
+            tries += 1
             if r["status"] == "violation":
                 reps += 1
                 last = r
-        need = 3 if v.get("kind") == "hang" else 1
+                if need == 1:
+                    break
         if reps >= need or getattr(mod, "TRUST_SINGLE", False):
             if last is not None:
                 v["detail"] = last["detail"]
-            v["reproduced"] = "%d/3" % reps
+            v["reproduced"] = "%d/%d" % (reps, tries)
             if last is not None and last.get("finding") and known_active(last["finding"]):
                 continue
             p = write_replay(pid, v)
